@@ -110,8 +110,8 @@ ENGINE_RULE = ("random spec graphs (<=5 nodes + optional explicit error node, <=
 
 PROPS = {
     "C01": {
-        "modules": ["Sheens.Props.C01"],
-        "theorems": ["Sheens.C01.match_sound", "Sheens.C01.Witness.sat"],
+        "modules": ["Sheens.Props.C01", "Sheens.Props.MatchTotal"],
+        "theorems": ["Sheens.C01.match_sound", "Sheens.C01.Witness.sat", "Sheens.MatchTotal.satB_sound"],
         "facts": ["matcher_switches", "ineq_ops", "name_conventions"],
         "runs": {
             "quick": [("match", ["-profile", "c01", "-n", "6000", "-reps", "3"])],
